@@ -165,6 +165,7 @@ class C03(Property):
                    "mode": "product", "pe": [0], "pl": [0, 1], "pv": [0],
                    "runs": [{"cfg": [1, 0, 0], "how": "inproc", "sched": 0, "quiet": True}, {"cfg": [2, 0, 0], "how": "sim", "sched": 3, "quiet": True}]})
         cs += c01.seq_directed_cases()
+        cs += c01.seq_directed_cases5()[1::2]      # (the two tuple-list cases; the cross products cost too many alone-runs) phase 5: PMF / info learners, chunk()/cache() pipelines, batched sources (orientation probe)
         # shared chunk()/cache() prefix, all triples of the group in one address space
         cs.append({"kind": "toy", "seed": 2, "envs": [{"tag": 0, "xs": [3, 1, 4, 1, 5], "prefix": [["chunk"]], "branches": [[["shuffle", 3]]]}],
                    "lrns": [{"tag": 0, "mult": 1}, {"tag": 1, "mult": 3}], "vals": [{"tag": 0, "seed": None, "learn": True}],
